@@ -28,7 +28,7 @@ ASSUMPTIONS = ['whether the callee name is looked up before or after its argumen
 REAL = ['smartquery.*']
 STUB = ['host probes t / boom (scripted, with a fault plan)']
 REACH_PROBES = ('lazy_and', 'lazy_or', 'if', 'probe_raise_fired', 'slice', 'dict_literal', 'setitem', 'setitemop',
-                'short', 'lambda_body_probe', 'literal_leaf_next_to_lazy', 'call_args', 'del', 'lamcall', 'undefined_callee', 'same_operand_twice', 'lazy_right_changes_left', 'nested_lambda_calls', 'lambda_of_earlier_call', 'failing_literal_negation')
+                'short', 'lambda_body_probe', 'literal_leaf_next_to_lazy', 'call_args', 'del', 'lamcall', 'undefined_callee', 'same_operand_twice', 'lazy_right_changes_left', 'nested_lambda_calls', 'lambda_of_earlier_call', 'failing_literal_negation', 'big_dict_literal')
 
 TRUTHY = {'num': [['num', '1'], ['num', '2.5'], ['neg', ['num', '3']]], 'str': [['str', 'a'], ['str', '0']],
           'bool': [['bool', True]], 'list': [['list', [['num', '1']]], ['list', [['list', []]]]], 'none': [['num', '7']]}
@@ -231,6 +231,13 @@ class Shape:
     def t_dict(self, d):
         r = self.r
         self.kinds.add('dict_literal')
+        if r.random() < 0.06 and self.size < 12:
+            # 66 pairs: each key is followed by its value, the 66th like the 1st
+            self.kinds.add('big_dict_literal')
+            pairs = [[self.leaf('str'), self.leaf('num')] for _ in range(2)]
+            pairs += [[['str', 'c%d' % i], ['num', str(i)]] for i in range(62)]
+            pairs += [[self.leaf('str'), self.leaf('num')] for _ in range(2)]
+            return ['dict', pairs]
         n = r.randint(0, 3)
         return ['dict', [[self.e(r.choice(['str', 'num']), min(d, 1)), self.e(r.choice(['num', 'str', 'list']), d)] for _ in range(n)]]
 
